@@ -14,7 +14,8 @@ RULE = ('(tap) conversations between two normal peers (both directions, random p
         '(garbage) the same random / malformed frame sequence fed to a normal receiver and to a listener. Oracle: the listener hands '
         'nothing to txfn, and its recv() results equal the normal receiver\'s. All runs replayed on the extracted model. '
         'non-trivial = distinct cases'
-        ' (listener_sends) a listener whose user also calls send() (Single Frame or a multi-frame message with its grants) during a tapped segmented transfer: it transmits what its user sends, never a Flow Control; the tapped payload is delivered.')
+        ' (listener_sends) a listener whose user also calls send() (Single Frame or a multi-frame message with its grants) during a tapped segmented transfer: it transmits what its user sends, never a Flow Control; the tapped payload is delivered.'
+        ' A quarter of the garbage cases are a sender that stalls in mid-message for longer than rx_consecutive_frame_timeout and then carries on, the listener configured with a separation time of up to 127 ms: both abandon the message at the same moment.')
 ASSUME = ['no N_Cr deadline is missed at either observer (ticks stay below the timeouts)']
 
 
@@ -137,8 +138,21 @@ def run_shard(campaign, shard, nshards, seed, tier):
                 inst['params'].pop(k, None)
             ops0 = [op for op in base['ops'] if op[1] in ('rx', 'proc', 'tick', 'recv', 'stop_receiving')]
             ops0 = [op if op[1] != 'proc' else [0, 'proc', 1, 1] for op in ops0]
-            L = dict(inst, params=dict(inst['params'], listen_mode=True, blocksize=rng.choice([0, 1, 5, 250]), stmin=rng.choice([0, 3, 0xF9]),
+            L = dict(inst, params=dict(inst['params'], listen_mode=True, blocksize=rng.choice([0, 1, 5, 250]), stmin=rng.choice([0, 3, 0xF9, 0x7F, 0x7F]),
                                        tx_padding=rng.choice([None, 0x55])))
+            if rng.random() < 0.25:
+                # a sender that stalls in mid-message for longer than the deadline, then carries on: receiver and listener (whatever
+                # separation time the listener is configured with) abandon the message at the same moment
+                from streams import encode_stream
+                Tms = rng.choice([7, 100, 200])
+                inst['params'].update(rx_consecutive_frame_timeout=Tms, blocksize=rng.choice([0, 2]), stmin=0, max_frame_size=4095)
+                L = dict(inst, params=dict(inst['params'], listen_mode=True, stmin=rng.choice([0x7F, 0x7F, 0x40, 0])))
+                rid_, ext_, pfx_ = reach(inst)
+                frames_ = encode_stream(bytes(rng.getrandbits(8) for _ in range(rng.choice([20, 40]))), 8, pfx_, 'min')
+                cut = rng.randint(1, len(frames_) - 1)
+                stall = Tms * 10**6 + rng.choice([10**6, 5 * 10**6, 20 * 10**6])
+                ops0 = [[0, 'rx', rid_, int(ext_), hx(f)] for f in frames_[:cut]] + [[0, 'proc', 1, 1], [0, 'tick', stall], [0, 'proc', 1, 1]] + \
+                       [[0, 'rx', rid_, int(ext_), hx(f)] for f in frames_[cut:]] + [[0, 'proc', 1, 1], [0, 'recv']]
             ops = []
             pending_rx = 0
 
